@@ -53,9 +53,9 @@ func C05(p *core.Prog, r *core.Report) {
 // C15: multi-site edit commands.
 func C15(p *core.Prog, r *core.Report) {
 	r.Rule("INPUT-COORD", "in the multi-site edit commands every definition of the locator's argument that reaches the call is the record as scanned ((*Scanner).Value through copies, conversions and slices filled only with scanned records), never the result of an edit operation", 6)
-	InputCoord(p, r, []string{"deleteFunc", "insertFunc", "infixFunc", "splitFunc", "rotateFunc", "extractFunc"})
+	InputCoord(p, r, []string{"delete", "insert", "infix", "split", "rotate", "extract"})
 	r.Rule("EDIT-CHAIN", "in the multi-site edit commands a record handed to WriteSeq that is built by a chain of edits (a variable updated from itself) is declared, or freshly assigned at the top level, inside the innermost loop around the WriteSeq: every record written starts from the scanned record, not from the previous record written", 8)
-	EditChain(p, r, []string{"deleteFunc", "insertFunc", "infixFunc", "splitFunc", "rotateFunc", "extractFunc"})
+	EditChain(p, r, []string{"delete", "insert", "infix", "split", "rotate", "extract"})
 	r.Rule("DEDUP-EXACT", "a membership helper of package main (shape func([]T, T) bool) decides membership by reflect.DeepEqual or == of the element and the candidate, nothing coarser", 1)
 	DedupExact(p, r)
 	// the region helpers the commands translate sites with
